@@ -10,7 +10,7 @@ from __future__ import annotations
 import ast
 
 from mlmverif import cfg as cfgm
-from mlmverif.core import (AnalysisError, Ctx, FuncInfo, is_self_attr, kwarg,
+from mlmverif.core import (parent_map, AnalysisError, Ctx, FuncInfo, is_self_attr, kwarg,
                            unparse, walk_no_nested)
 from mlmverif.props import c06, c14
 
@@ -35,7 +35,7 @@ ORCH = 'chainables.orchestrate'
 
 
 def run(ctx: Ctx):
-  for r in (r1, r2, r3, r4):
+  for r in (r1, r2, r3, r4, r5):
     ctx.guard(r)
 
 
@@ -190,9 +190,34 @@ def r2(ctx: Ctx):
   ok = (len(clears) == 1 and len(apps) == 1 and 'AggregateResult' in unparse(apps[0].ast)
         and g.dominates(lambda n: n in clears, apps[0], cfgm.only_normal) is None
         and apps[0] not in g.reachable([apps[0]], edge_ok=cfgm.only_normal))
+  # the merge block runs whenever any worker returned a state (also exactly one)
+  if ok:
+    pm_ = parent_map(st.node)
+    q_ = apps[0].ast
+    guard = None
+    while q_ is not st.node and q_ is not None:
+      par_ = pm_.get(q_)
+      if isinstance(par_, ast.If) and q_ in par_.body:
+        guard = par_
+      q_ = par_
+    if guard is not None:
+      t_ = guard.test
+      fine = unparse(t_) == f'{rq}.returned'
+      if isinstance(t_, ast.Compare) and len(t_.ops) == 1 and unparse(t_.left) == f'len({rq}.returned)' and isinstance(
+          t_.comparators[0], ast.Constant):
+        c_ = t_.comparators[0].value
+        fine = (isinstance(t_.ops[0], ast.Gt) and c_ == 0) or (isinstance(t_.ops[0], ast.GtE) and c_ == 1) or (
+            isinstance(t_.ops[0], ast.NotEq) and c_ == 0)
+      if not fine:
+        ok = False
+        ctx.fail(rule, st, f'iterate_with_worker_pool: merge block guarded by `{rq}.returned` being non-empty',
+                 f'the block that computes the final aggregate is guarded by `{unparse(t_)}`:'
+                 ' for some non-empty sets of worker states (e.g. exactly one'
+                 ' worker) no aggregate result is computed and the stage returns'
+                 ' a raw per-worker state instead of the final aggregate', node=guard)
   if ok:
     ctx.ok(rule, st, 'returned.clear(); returned.append(one AggregateResult)', apps[0].ast)
-  else:
+  elif not any(f.rule == rule and 'merge block guarded' in f.construct for f in ctx.findings):
     ctx.fail(rule, st, 'iterate_with_worker_pool: result_q.returned.clear(); result_q.returned.append(AggregateResult(...))',
              'the stage does not end with exactly one merged aggregate result'
              ' (partial per-worker results leak through or none is produced)',
@@ -245,11 +270,66 @@ def r4(ctx: Ctx):
   ctx.floor(rule, 8)
 
 
+def r5(ctx: Ctx):
+  rule = 'R-C16-5'
+  ctx.rule(rule, 'no key dropped by the merge: in TransformRunner.merge_states'
+           ' every (metric, slice) entry of every incoming state whose metric'
+           ' belongs to the runner is stored into the merged state on every'
+           ' path through the loop body (a slice seen only by a later shard'
+           ' must still be reported)')
+  fi = ctx.repo.func(TR, 'TransformRunner.merge_states')
+  g = cfgm.cfg_of(fi.node)
+  inner = [n for n in g.nodes if n.kind == 'for_iter' and isinstance(n.ast.iter, ast.Call)
+           and isinstance(n.ast.iter.func, ast.Attribute) and n.ast.iter.func.attr == 'items'
+           and isinstance(n.ast.target, ast.Tuple) and len(n.ast.target.elts) == 2]
+  if len(inner) != 1:
+    raise AnalysisError(f'{rule}: expected one `for key, fn_state in state.items()` loop')
+  lp = inner[0]
+  kv = unparse(lp.ast.target.elts[0])
+  conds = [n for n in g.nodes if n.kind == 'cond' and 'agg_fns' in unparse(n.ast)
+           and n in g.reachable([lp], edge_ok=cfgm.only_normal)]
+  if not conds:
+    raise AnalysisError(f'{rule}: the membership test against self.agg_fns was not found')
+  store = lambda n: n.kind == 'stmt' and isinstance(n.ast, ast.Assign) and any(
+      isinstance(t, ast.Subscript) and unparse(t.slice) == kv for t in n.ast.targets)
+  n_ok = 0
+  for c in conds:
+    starts = [s_ for s_, lab in c.succ if lab == 'true']
+    for st_ in starts:
+      if store(st_):
+        n_ok += 1
+        continue
+      w = g.must_pass(st_, [lp], store, cfgm.only_normal)
+      if w is None:
+        n_ok += 1
+      else:
+        ctx.fail(rule, fi, f'TransformRunner.merge_states: merged[{kv}] stored on every path',
+                 'a path through the merge loop keeps an incoming entry of the'
+                 ' runner out of the merged state: slice keys that the first'
+                 ' state does not hold are dropped from the final aggregate',
+                 node=c.ast, witness=w[-8:])
+  if n_ok:
+    ctx.ok(rule, fi, f'merged[{kv}] is stored on every path for a runner metric', lp.ast)
+  ctx.floor(rule, 1)
+
+
 from mlmverif.selfcheck import B, OK  # noqa: E402
 
 _T = 'chainables/transform.py'
 _O = 'chainables/orchestrate.py'
 VARIANTS = [
+    B('merge-keeps-only-first-state-keys', _T,
+      '          if key in states_by_fn:\n            fn_state = agg_fn.merge_states([states_by_fn[key], fn_state])\n          states_by_fn[key] = fn_state',
+      '          if not states_cnt:\n            states_by_fn[key] = fn_state\n          elif key in states_by_fn:\n            states_by_fn[key] = agg_fn.merge_states(\n                [states_by_fn[key], fn_state]\n            )',
+      'R-C16-5'),
+    OK('merge-two-branch-store', _T,
+       '          if key in states_by_fn:\n            fn_state = agg_fn.merge_states([states_by_fn[key], fn_state])\n          states_by_fn[key] = fn_state',
+       '          if key in states_by_fn:\n            states_by_fn[key] = agg_fn.merge_states([states_by_fn[key], fn_state])\n          else:\n            states_by_fn[key] = fn_state'),
+    B('single-state-skips-final-aggregate', 'chainables/orchestrate.py',
+      '    if result_q.returned:\n      agg_states = []', '    if len(result_q.returned) > 1:\n      agg_states = []',
+      'R-C16-2'),
+    OK('merge-guard-len-positive', 'chainables/orchestrate.py',
+       '    if result_q.returned:\n      agg_states = []', '    if len(result_q.returned) > 0:\n      agg_states = []'),
     B('strict-guard-removed', _T,
       "    if strict_states_cnt and states_cnt != strict_states_cnt:\n      raise ValueError(\n          'unexpected number of aggregation states. Workers'\n          f' might have partially crashed: got {states_cnt} states, '\n          f'needs {strict_states_cnt}.'\n      )\n",
       '', 'R-C16-1'),
